@@ -70,6 +70,20 @@ func runC04(c *core.Ctx) {
 			c04Case(c, t, 1+(i+3)%8, 700, 2, 5, "large/"+t.Name, 0)
 		}
 	}
+	// a write cursor near the end of a very large buffer (several hundred
+	// thousand samples): a tiny window of a huge parent is still a window
+	for i, t := range dyn.ElemTypes() {
+		if i%4 != 1 && t.Name != "float32" {
+			continue
+		}
+		ch := 1 + i%3
+		k := 300007 / ch
+		if c.Mine(i+7) && c.Want("huge/"+t.Name) {
+			c04Case(c, t, ch, k, k-8, k-6, "huge/"+t.Name, 5*ch+3)
+			c.Obs("tiny_tail_windows_of_parents_with_300000_samples", 1)
+		}
+	}
+	c.Floor("tiny_tail_windows_of_parents_with_300000_samples", 1)
 	c.Floor("noop_calls_on_full", 100)
 	c.Floor("appending_calls", 1000)
 }
